@@ -468,6 +468,10 @@ func syncCloneTable(repo string) (string, string, error) {
 	if err != nil {
 		return "", "", err
 	}
+	h1guard, err := cachedLookupGuard(repo)
+	if err != nil {
+		return "", "", err
+	}
 	tlsWritten, err := tlsWrittenFields(repo)
 	if err != nil {
 		return "", "", err
@@ -572,7 +576,7 @@ func syncCloneTable(repo string) (string, string, error) {
 		"   slices: Cookies, roundTripWrappers, httpRoundTripWrappers, udBeforeRequest, afterResponse, t2.Settings, t2.PriorityFrames\n" +
 		"   maps:   Headers, QueryParams, FormData, PathParams;  t_rt: retryOption;  t_scal: the value-typed settings\n" +
 		"   (by key, Model/Settings.v) Clone carries over *)\n" +
-		"From Coq Require Import List String.\nFrom ReqV Require Import Model.Settings Model.ReExec.\nImport ListNotations.\n" +
+		"From Coq Require Import List String.\nFrom ReqV Require Import Model.Settings Model.ReExec Model.LiveSel.\nImport ListNotations.\n" +
 		"Definition gen_tbl : ctbl :=\n  {| t_sl := [" + strings.Join(sl, "; ") + "];\n     t_mp := [" + strings.Join(mp, "; ") + "];\n     t_rt := " + b(clientDeep["retryOption"]) + ";\n" +
 		"     t_scal := [" + strings.Join(scal, "; ") + "];\n" +
 		"     t_jar := " + b(jarInit) + "; t_dopt := " + b(clientDeep["dumpOptions"]) + "; t_dumper := " + b(optionsCloned && dumperCloned) + "; t_link := " + b(dumpLink) + ";\n" +
@@ -591,7 +595,9 @@ func syncCloneTable(repo string) (string, string, error) {
 		"(* fields of a *tls.Config that client.go / transport.go write or extend in place *)\n" +
 		"Definition gen_tls_written_fields : list string := " + strs(tlsWritten) + ".\n" +
 		"(* Request.do starts with r.unmergeClientSettings(); unmergeClientSettings returns before its resets *)\n" +
-		"Definition gen_prologue : prologue := {| p_called := " + b(prologue[0]) + "; p_fastpath := " + b(prologue[1]) + " |}.\n"
+		"Definition gen_prologue : prologue := {| p_called := " + b(prologue[0]) + "; p_fastpath := " + b(prologue[1]) + " |}.\n" +
+		"(* Transport.roundTrip: the cached HTTP/2 connection lookup is guarded by t.forceHttpVersion != h1 *)\n" +
+		"Definition gen_guard : lguard := {| g_h1guard := " + b(h1guard) + " |}.\n"
 	return "CloneTable.v", out, nil
 }
 
@@ -722,4 +728,71 @@ func doPrologue(repo string) ([2]bool, error) {
 		return out, fmt.Errorf("request.go: unmergeClientSettings no longer resets clientMerged, clientFormDataMerged and RetryAttempt at top level; Model/ReExec.v must be revisited")
 	}
 	return out, nil
+}
+
+// cachedLookupGuard reads Transport.roundTrip (transport.go): the if statement whose body calls
+// t.t2.RoundTripOnlyCachedConn must have `t.forceHttpVersion != h1` as a conjunct of its condition.
+func cachedLookupGuard(repo string) (bool, error) {
+	fs := token.NewFileSet()
+	f, err := parser.ParseFile(fs, filepath.Join(repo, "transport.go"), nil, 0)
+	if err != nil {
+		return false, err
+	}
+	found, guarded := false, false
+	for _, d := range f.Decls {
+		fd, ok := d.(*ast.FuncDecl)
+		if !ok || fd.Name.Name != "roundTrip" || fd.Recv == nil || fd.Body == nil {
+			continue
+		}
+		ast.Inspect(fd.Body, func(n ast.Node) bool {
+			ifs, ok := n.(*ast.IfStmt)
+			if !ok {
+				return true
+			}
+			calls := false
+			for _, st := range ifs.Body.List { // direct statements of the body only
+				ast.Inspect(st, func(m ast.Node) bool {
+					if _, nested := m.(*ast.IfStmt); nested {
+						return false
+					}
+					if sel, ok := m.(*ast.SelectorExpr); ok && sel.Sel.Name == "RoundTripOnlyCachedConn" {
+						if x, ok := sel.X.(*ast.SelectorExpr); ok && x.Sel.Name == "t2" {
+							calls = true
+						}
+					}
+					return true
+				})
+			}
+			if !calls {
+				return true
+			}
+			found = true
+			var conj func(e ast.Expr)
+			conj = func(e ast.Expr) {
+				if be, ok := e.(*ast.BinaryExpr); ok {
+					if be.Op == token.LAND {
+						conj(be.X)
+						conj(be.Y)
+						return
+					}
+					if be.Op == token.NEQ {
+						if l, ok := be.X.(*ast.SelectorExpr); ok && l.Sel.Name == "forceHttpVersion" {
+							if r, ok := be.Y.(*ast.Ident); ok && r.Name == "h1" {
+								guarded = true
+							}
+						}
+					}
+				}
+				if pe, ok := e.(*ast.ParenExpr); ok {
+					conj(pe.X)
+				}
+			}
+			conj(ifs.Cond)
+			return false
+		})
+	}
+	if !found {
+		return false, fmt.Errorf("transport.go: the cached HTTP/2 connection lookup in Transport.roundTrip was not found; Model/LiveSel.v must be revisited")
+	}
+	return guarded, nil
 }
